@@ -165,26 +165,9 @@ class Solid:
     def contains(self, p, eps=0.0):
         return bool(np.all(self.n @ np.asarray(p, float) <= self.off + eps))
 
-    def clip(self, c, w, lo, hi, eps):
+    def clip_fast(self, c, w, lo, hi, eps):
         """Parameter interval of {c + s w, lo<=s<=hi} inside the polytope inflated by eps;
         None if empty."""
-        nc = self.n @ c - (self.off + eps)
-        nw = self.n @ w
-        for k in range(len(nc)):
-            if abs(nw[k]) < 1e-15:
-                if nc[k] > 0:
-                    return None
-                continue
-            s = -nc[k] / nw[k]
-            if nw[k] > 0:
-                hi = min(hi, s)
-            else:
-                lo = max(lo, s)
-            if lo > hi:
-                return None
-        return (lo, hi)
-
-    def clip_fast(self, c, w, lo, hi, eps):
         nc = self.n @ c - (self.off + eps)
         nw = self.n @ w
         par = np.abs(nw) < 1e-15
